@@ -17,4 +17,7 @@ assert os.path.realpath(chempy.__file__).startswith('/repo/'), chempy.__file__
 import tlc, core, registry
 print('harness ok; chempy from', chempy.__file__)
 "
-exit $fail
+# a module that does not parse makes the checks that use it fail with a machinery failure (exit 2);
+# setup itself only reports it
+[ $fail -eq 0 ] || echo "WARNING: some spec modules do not parse (see above)"
+exit 0
